@@ -1,0 +1,16 @@
+//go:build verif
+
+package merge
+
+import "sync/atomic"
+
+// Verification hook (build tag `verif` only): lets the correspondence harness force the row-by-row
+// merge path for tables that would qualify for the chunk-level fast path, so that both paths can be
+// run on the same inputs (property C30).  With the tag off verifFastPathAllowed is constant true.
+
+var verifForceRowPath atomic.Bool
+
+// VerifSetForceRowPath makes computeProllyTreePatches ignore canFastMergeProllyTrees while set.
+func VerifSetForceRowPath(force bool) { verifForceRowPath.Store(force) }
+
+func verifFastPathAllowed() bool { return !verifForceRowPath.Load() }
